@@ -27,8 +27,8 @@ pub mod dom {
     pub struct Other { pub h: usize }
     // dom::XmlNode: lang() distinguishes element and attribute nodes from all others
     pub enum XmlNode { Element(XmlElement), Attribute(XmlAttr), NotElement(Other) }
-    // the DOM as lang() reads it (uninterpreted): parent_node(), the element of an attribute, the value of the attribute an
-    // element carries under the local name `lang`, and a termination measure (distance from the root)
+    // the DOM as lang() reads it (uninterpreted): parent_node(), the element of an attribute, the xml:lang attribute an element
+    // carries, and a termination measure (distance from the root)
     pub uninterp spec fn dom_parent_of(n: XmlNode) -> Option<XmlNode>;
     pub uninterp spec fn owner_of(a: XmlAttr) -> Option<XmlElement>;
     pub uninterp spec fn lang_attr_of(e: XmlElement) -> Option<XmlAttr>;
@@ -45,7 +45,7 @@ pub mod dom {
         pub fn parent_node(&self) -> (r: Option<XmlNode>) ensures r == dom_parent_of(*self) { unimplemented!() }
     }
     impl XmlElement {
-        // element.get_attribute_node("lang"): the attribute with the local name `lang`, if the element carries one
+        // element.attributes().and_then(|v| v.iter().find(is_xml_lang)): the xml:lang attribute, if the element carries one
         #[verifier::external_body]
         pub fn shim_lang_attribute(&self) -> (r: Option<XmlAttr>) ensures r == lang_attr_of(*self) { unimplemented!() }
         #[verifier::external_body]
@@ -313,7 +313,7 @@ def build(repo=None):
     add('lang', [R_TOSTRING,
                  Rule('R8', r'let name = (value_to_string\([^\n;]*\)\?)\.to_lowercase\(\);', r'let name = shim_lower(&\1);', 'str::to_lowercase -> shim (uninterpreted `lower`)'),
                  Rule('R8', r'let value = attr\.value\(\)\?\.to_lowercase\(\);', 'let value = shim_lower(&attr.value()?);', 'str::to_lowercase -> shim'),
-                 Rule('R48', r'element\.get_attribute_node\("lang"\)', 'element.shim_lang_attribute()', 'lookup of the attribute with the local name lang -> shim'),
+                 Rule('R48', r'element\.attributes\(\)\.and_then\(\|v\| v\.iter\(\)\.find\(is_xml_lang\)\)', 'element.shim_lang_attribute()', 'lookup of the xml:lang attribute (NamedNodeMap iteration + find with the helper is_xml_lang) -> shim'),
                  Rule('R8', r'value\.strip_prefix\(name\.as_str\(\)\)', 'shim_strip_prefix(&value, &name)', 'str::strip_prefix -> shim'),
                  Rule('R8', r"rest\.is_empty\(\) \|\| rest\.starts_with\('-'\)", 'shim_empty_or_dash(&rest)', 'str::is_empty / starts_with(char) -> shim'),
                  Rule('R48', r'attr\.owner_element\(\)\.map\(\|v\| v\.as_node\(\)\)', 'dom::shim_owner_node(attr)', 'Option::map(as_node) over owner_element() -> shim')],
